@@ -3,7 +3,7 @@
 from __future__ import annotations
 
 import ast
-from typing import Callable, Iterable
+from typing import Any, Callable, Iterable
 
 from ..cfg import CFG, Node, cfg_of
 from ..pm import AnalysisError, FunctionInfo, Program, dotted, unparse
@@ -406,3 +406,131 @@ def coerce_first(check, fn, rule: str, construct: str) -> bool:
                   f"`{show(bad[0][1])[:70]}` applies a Python operator to an argument as it was handed in (before scalar()): for a list or a boolean "
                   "mask `+` is concatenation / logical or, so the result is not the elementwise value", loc(fn, bad[0][0] if bad else None))
     return not bad
+
+
+def who_may_write(check, rule: str, attr: str, allowed: set[str], why: str) -> None:
+    """Ownership: the backing field `attr` is assigned only inside `allowed` (qualified function names); everybody else goes
+    through the property, whose setter carries the invariant (`why`)."""
+    p = check.program
+    sites = 0
+    for f in p.functions.values():
+        if "/examples/" in f.file:
+            continue
+        for x in ast.walk(f.analysis_node):
+            if isinstance(x, ast.Attribute) and x.attr == attr and isinstance(x.ctx, (ast.Store, ast.Del)):
+                sites += 1
+                if f.qualname not in allowed:
+                    check.analysed(f)
+                    check.violation(rule, f"{f.qualname}/writes-{attr}", f"`{f.qualname}` assigns the backing field `{attr}` directly (line {x.lineno}); "
+                                    f"only {sorted(allowed)} may: {why}", f"{f.file}:{x.lineno}")
+    check.ok(rule, f"package/who-writes-{attr}", f"{sites} store(s) to `{attr}` in the package, all inside {sorted(allowed)}")
+
+
+SIZED_COMPONENT_LISTS = {"input_variables": "InputVariable", "output_variables": "OutputVariable", "variables": "Variable", "rule_blocks": "RuleBlock"}
+
+
+def _truth_atoms(e: ast.AST):
+    if isinstance(e, ast.BoolOp):
+        for v in e.values:
+            yield from _truth_atoms(v)
+    elif isinstance(e, ast.UnaryOp) and isinstance(e.op, ast.Not):
+        yield from _truth_atoms(e.operand)
+    else:
+        yield e
+
+
+def _direct_classes(annotation: ast.AST | None) -> set[str]:
+    """Class names an annotation allows at top level: `A`, `A | None`, `Optional[A]`, `Union[A, B]`, "A" - not `list[A]`."""
+    if annotation is None:
+        return set()
+    if isinstance(annotation, ast.Constant) and isinstance(annotation.value, str):
+        try:
+            return _direct_classes(ast.parse(annotation.value, mode="eval").body)
+        except SyntaxError:
+            return set()
+    if isinstance(annotation, ast.Name):
+        return {annotation.id}
+    if isinstance(annotation, ast.Attribute):
+        return {annotation.attr}
+    if isinstance(annotation, ast.BinOp) and isinstance(annotation.op, ast.BitOr):
+        return _direct_classes(annotation.left) | _direct_classes(annotation.right)
+    if isinstance(annotation, ast.Subscript) and isinstance(annotation.value, ast.Name) and annotation.value.id in ("Optional", "Union"):
+        sl = annotation.slice
+        return set().union(*[_direct_classes(x) for x in (sl.elts if isinstance(sl, ast.Tuple) else [sl])])
+    return set()
+
+
+def scan_component_truthiness(program, tree_functions, sized: set[str]) -> list[tuple[Any, ast.AST, str, str]]:
+    """Truth tests (if / conditional expression / while / assert / not / and / or / comprehension filter) whose operand is an engine
+    component of a class that defines __len__ / __bool__: such a test asks "has it any terms / rules?", not "is it there?"."""
+    out = []
+    for f in tree_functions:
+        node = f.analysis_node if hasattr(f, "analysis_node") else f
+        ann: dict[str, str] = {}
+        a = node.args
+        for arg in a.posonlyargs + a.args + a.kwonlyargs:
+            hit = _direct_classes(arg.annotation) & sized
+            if hit:
+                ann[arg.arg] = sorted(hit)[0]
+        # loop elements over the component lists of an engine
+        for x in ast.walk(node):
+            if isinstance(x, (ast.For, ast.comprehension)) and isinstance(x.target, ast.Name):
+                it = x.iter
+                while isinstance(it, ast.Call) and isinstance(it.func, ast.Name) and it.func.id in ("enumerate", "list", "reversed", "iter", "tuple") and it.args:
+                    it = it.args[0]
+                if isinstance(it, ast.Attribute) and it.attr in SIZED_COMPONENT_LISTS and SIZED_COMPONENT_LISTS[it.attr] in sized:
+                    ann.setdefault(x.target.id, SIZED_COMPONENT_LISTS[it.attr])
+        if not ann:
+            continue
+        for x in ast.walk(node):
+            tests: list[ast.AST] = []
+            if isinstance(x, (ast.If, ast.IfExp, ast.While, ast.Assert)):
+                tests.append(x.test)
+            elif isinstance(x, ast.comprehension):
+                tests += x.ifs
+            elif isinstance(x, ast.BoolOp):
+                tests += x.values
+            elif isinstance(x, ast.UnaryOp) and isinstance(x.op, ast.Not):
+                tests.append(x.operand)
+            for t in tests:
+                for at in _truth_atoms(t):
+                    if isinstance(at, ast.Name) and at.id in ann:
+                        out.append((f, at, at.id, ann[at.id]))
+    seen = set()
+    uniq = []
+    for f, at, nm, cls in out:
+        k = (id(f), at.lineno, at.col_offset)
+        if k not in seen:
+            seen.add(k)
+            uniq.append((f, at, nm, cls))
+    return uniq
+
+
+def component_truthiness(check, rule: str, modules: set[str] | None = None) -> None:
+    """No engine component whose class defines __len__ / __bool__ (a variable is falsy without terms, a rule block without rules) is
+    used as a truth value: an "is it present" test written that way drops or replaces empty components."""
+    import os
+
+    from ..report import VERIF
+
+    p = check.program
+    sized = {c.name for c in p.classes.values() if (c.lookup("__len__") is not None or c.lookup("__bool__") is not None)
+             and c.name in set(SIZED_COMPONENT_LISTS.values())}
+    if len(sized) < 4:
+        # the rule is about today's sized components; if none is sized any more there is nothing to protect
+        check.notes.append(f"component-truthiness: sized component classes today: {sorted(sized)}")
+    fns = [f for f in p.functions.values() if "/examples/" not in f.file and (modules is None or f.file in modules)]
+    hits = scan_component_truthiness(p, fns, sized)
+    for f, at, nm, cls in hits:
+        check.analysed(f)
+        check.violation(rule, f"{f.qualname}/truthiness:{nm}", f"`{nm}` (a {cls}) is used as a truth value at line {at.lineno}: {cls} defines __len__, so the "
+                        "test is false for a component without terms / rules - an empty but present component is treated as missing "
+                        "(exported as None, dropped, or replaced)", f"{f.file}:{at.lineno}")
+    if not hits:
+        check.ok(rule, "package/component-truthiness", f"no {'/'.join(sorted(sized))} object is used as a truth value ({len(fns)} functions scanned)")
+    with open(os.path.join(VERIF, "selftest", "fixtures", "sized_truthiness.py"), encoding="utf-8") as fh:
+        tree = ast.parse(fh.read())
+    fx = scan_component_truthiness(p, [x for x in ast.walk(tree) if isinstance(x, ast.FunctionDef)], {"Variable", "InputVariable", "OutputVariable", "RuleBlock"})
+    if len(fx) != 3:
+        raise AnalysisError(f"positive fixture for the component-truthiness rule matches {len(fx)} sites, expected 3")
+    check.ok(rule, "fixture/component-truthiness", "positive fixture matched 3 truth tests on sized components (and not the identity test / plain list)")
